@@ -449,6 +449,184 @@ def oracle_case(mod, sig, call):
     return {"binds": True, "bad": sorted(set(bad)), "solvable": solvable, "t_objs": t_objs}
 
 
+
+# ---------------------------------------------------------------------------
+# runtime oracle for every concrete call (typed / list / dict / callback arguments included)
+#
+# An argument is represented by concrete objects: a literal by itself; a value of static type
+# t1 | .. | tn by one canonical instance of every member (int -> 1, float -> 1.5, A -> A(), ...): on
+# this fragment "the static type is accepted" <=> "every representative is a runtime member"
+# (classes with the int -> float promotion, literals); a list / dict by the representatives of its
+# element / key / value types; a callback by its parameter and result types.  Binding is CPython's
+# (inspect.signature(...).bind on the argument descriptors).
+
+_CLASS_REP = None
+
+
+def class_rep(name):
+    global _CLASS_REP
+    if _CLASS_REP is None:
+        _CLASS_REP = {"int": 1, "bool": True, "float": 1.5, "str": "a", "object": object(), "clsA": uni.a_inst, "clsB": uni.b_inst, "clsC": uni.c_inst}
+    return _CLASS_REP[name]
+
+
+def reps_sval(svl):
+    out = []
+    lit = dict(uni.LITERAL_OBJECTS)
+    for a in svl:
+        n = uni.ATOM_NAMES[a]
+        if n in lit:
+            out.append(lit[n])
+        else:
+            out.append(class_rep(n))
+    return out
+
+
+def class_part(svl):
+    """the class atoms of a declared type: a value of static type `int` is accepted by `int` or `float`,
+    never by Literal[1] although its representative 1 is a member of it"""
+    if svl == "any":
+        return "any"
+    names = dict(uni.CLASS_ATOMS)
+    return tuple(a for a in svl if uni.ATOM_NAMES[a] in names)
+
+
+def arg_reps(a):
+    if "o" in a:
+        return ("objs", [u6.obj_value(a["o"])])
+    if "t" in a:
+        return ("typed", reps_sval(a["t"]))
+    if "list" in a:
+        return ("list", reps_sval(a["list"]))
+    if "dict" in a:
+        return ("dict", reps_sval(a["dict"][0]), reps_sval(a["dict"][1]))
+    p, r = u6.FUNS[a["fun"]]
+    return ("fun", tuple(p), tuple(r))
+
+
+def objs_in(objs, svl):
+    return all(u6.member_sval(o, svl) for o in objs)
+
+
+def sub_sval(a, b):
+    return b == "any" or objs_in(reps_sval(a), class_part(b))
+
+
+LIST_ATOMS = {"list_int": (A("int"),), "list_bool": (A("bool"),), "list_object": (A("object"),), "seq_int": (A("int"),)}
+
+
+def fits_plain(rep, ann):
+    if ann in (None, "any"):
+        return True
+    svl = tuple(ann)
+    if rep[0] == "objs":
+        return objs_in(rep[1], svl)
+    if rep[0] == "typed":
+        return objs_in(rep[1], class_part(svl))
+    if A("object") in svl:
+        return True
+    if rep[0] == "list":
+        return any(uni.ATOM_NAMES[a] in LIST_ATOMS and objs_in(rep[1], LIST_ATOMS[uni.ATOM_NAMES[a]]) for a in svl)
+    return False
+
+
+def oracle_full(mod, sig, call):
+    fn = runtime_callable(mod, sig)
+    try:
+        ba = inspect.signature(fn).bind(*call["pos"], **{n: a for n, a in call["kw"]})
+    except TypeError as ex:
+        return {"binds": False, "why": str(ex)[:80]}
+    tvs = sig["tvs"]
+    decl = lambda k: u6.DECLS[tvs[k]][1]
+
+    def decl_ok(k, objs):
+        d = decl(k)
+        if d[0] == "unbounded":
+            return True
+        if d[0] == "bounded":
+            return objs_in(objs, d[1])
+        return any(objs_in(objs, c) for c in d[1])
+
+    lowers = {k: [] for k in range(len(tvs))}
+    uppers = {k: [] for k in range(len(tvs))}
+    bad = []
+    by_name = {p["name"]: p for p in sig["params"]}
+
+    def lower(k, objs, name):
+        if not decl_ok(k, objs):
+            bad.append(name)
+        else:
+            lowers[k] += objs
+
+    for name, v in ba.arguments.items():
+        p = by_name[name]
+        xs = list(v) if p["kind"] == "vp" else list(v.values()) if p["kind"] == "vk" else [v]
+        a = p["ann"]
+        rs = [arg_reps(x) for x in xs]
+        if not isinstance(a, dict):
+            if any(not fits_plain(r, a) for r in rs):
+                bad.append(name)
+            continue
+        if not rs:
+            continue
+        if "v" in a:
+            if any(r[0] not in ("objs", "typed") for r in rs):
+                bad.append(name)
+                continue
+            lower(a["v"], [o for r in rs for o in r[1]], name)  # collected arguments are one lower bound
+        elif "list" in a:
+            for r in rs:
+                if r[0] != "list":
+                    bad.append(name)
+                else:
+                    lower(a["list"], r[1], name)
+        elif "dict" in a:
+            for r in rs:
+                if r[0] != "dict":
+                    bad.append(name)
+                else:
+                    lower(a["dict"][0], r[1], name)
+                    lower(a["dict"][1], r[2], name)
+        else:
+            k, rr = a["fun"]
+            for r in rs:
+                if r[0] != "fun":
+                    bad.append(name)
+                    continue
+                d = decl(k)
+                if d[0] == "constrained" and not any(sub_sval(r[1], c) for c in d[1]):
+                    bad.append(name)  # no constraint accepts the callback's parameter type
+                    continue
+                uppers[k].append(r[1])
+                if rr is None:
+                    pass
+                elif isinstance(rr, dict):
+                    lower(rr["v"], reps_sval(r[2]), name)
+                elif not sub_sval(r[2], "any" if rr == "any" else tuple(rr)):
+                    bad.append(name)
+    for p in sig["params"]:
+        a = p["ann"]
+        if p["name"] not in ba.arguments and p["default"] is not None and isinstance(a, dict) and "v" in a:
+            x = u6.obj_value(p["default"]["o"])
+            if decl_ok(a["v"], [x]):
+                lowers[a["v"]].append(x)
+    unsolvable, indeterminate = [], []
+    for k in range(len(tvs)):
+        S, U = lowers[k], uppers[k]
+        d = decl(k)
+        if S:
+            if d[0] == "constrained":
+                ok = any(objs_in(S, c) and all(sub_sval(c, p) for p in U) for c in d[1])
+            else:
+                ok = decl_ok(k, S) and all(objs_in(S, p) for p in U)
+            if not ok:
+                unsolvable.append(k)
+        elif U:
+            indeterminate.append(k)  # only upper bounds: any subtype of all of them would do
+    return {"binds": True, "bad": sorted(set(bad)), "unsolvable": unsolvable, "indeterminate": indeterminate,
+            "must_diagnose": bool(bad or unsolvable), "must_accept": not bad and not unsolvable and not indeterminate}
+
+
 def value_contains(val, r, fallback_counter):
     from pyanalyze.value import AnnotatedValue, AnyValue, KnownValue, MultiValuedValue, TypedValue
 
@@ -608,7 +786,7 @@ def run(tier: str, replay: str | None = None):
     impl = {}
     oracle_fail, harness_notes = [], []
     hist = {"flavor": {}, "generic": 0, "two_typevars": 0, "calls": 0, "literal_calls_that_bind": 0, "diagnosed": 0, "accepted": 0, "codes": {},
-            "model_kinds": {}, "executed": 0, "result_checked": 0, "result_fallback_can_assign": 0, "inferred_out_of_fragment": 0, "stray_errors": 0,
+            "model_kinds": {}, "executed": 0, "result_checked": 0, "result_fallback_can_assign": 0, "inferred_out_of_fragment": 0, "stray_errors": 0, "structured_calls_judged": 0, "structured_verdicts": {"must_diagnose": 0, "must_accept": 0, "either": 0},
             "arg_forms": {"o": 0, "t": 0, "list": 0, "dict": 0, "fun": 0, "star": 0, "starkw": 0},
             "param_kinds": {k: 0 for k in KINDS}, "ann_forms": {"none": 0, "type": 0, "v": 0, "list": 0, "dict": 0, "fun": 0}}
     fallback = [0]
@@ -663,6 +841,14 @@ def run(tier: str, replay: str | None = None):
                         if diagnosed != must:
                             oracle_fail.append((case_in, {"what": "generic call: diagnosed <=> some argument outside its declared type or no declared choice of a type variable fits all its arguments, fails",
                                                           "impl_codes": r["codes"], "impl_descr": r["descr"], "cpython_nonmembers": o["bad"], "solvable": o["solvable"]}))
+            if call.get("star") is None and call.get("starkw") is None and not literal_call(call):
+                of = oracle_full(mod, sig, call)
+                if of["binds"]:
+                    hist["structured_calls_judged"] += 1
+                    hist["structured_verdicts"]["must_diagnose" if of["must_diagnose"] else "must_accept" if of["must_accept"] else "either"] += 1
+                    if (of["must_diagnose"] and not diagnosed) or (of["must_accept"] and diagnosed):
+                        oracle_fail.append((case_in, {"what": "representative-object oracle: " + ("an argument has a representative outside its declared type / no value of a type variable fits all its bounds, but the call is accepted" if of["must_diagnose"] else "every representative fits and every type variable has a fitting value, but the call is diagnosed"),
+                                                      "impl_codes": r["codes"], "impl_descr": r["descr"], "oracle": {k: of[k] for k in ("bad", "unsolvable", "indeterminate")}}))
             if not diagnosed and call.get("star") is None and call.get("starkw") is None:
                 # execute the call; the inferred type must contain the result
                 try:
